@@ -825,8 +825,12 @@ Qed.
 
 (* every compiled function equals the hand-written model for ALL arguments (results and panics alike); for
    fill_symbol: whenever the fuel covers the INLINE ranges of the function found and the model does not run out of
-   its own fuel.  The compiled `instr - mbase` (a u64 subtraction the model writes as plain `-`) cannot trap. *)
+   its own fuel.  The compiled `instr - mbase` (a u64 subtraction the model writes as plain `-`) cannot trap; neither can
+   the `- 1` of the two memory_range functions, nor the `start <= end` assertion of Range::new (for non-negative fields). *)
 Theorem c11_compiled_source_tie :
+  (forall p f, 0 <= fn_addr f -> 0 <= fn_size f ->
+     C11Src.src_func_memory_range p f = Ret (mk_range (fn_addr f) (fn_size f))) /\
+  (forall p w, 0 <= w_addr w -> 0 <= w_size w -> C11Src.src_win_memory_range p w = Ret (win_range w)) /\
   (forall p f depth addr, C11Src.src_get_inlinee_at_depth p f depth addr =
      do r <- get_inlinee_at_depth (fn_inls f) depth addr; Ret (option_map SrcTie.giad_tuple r)) /\
   (forall p f addr, C11Src.src_get_outermost_sourceloc p f addr =
